@@ -29,9 +29,7 @@ def LineTemp.get (m : LineTemp R) (isFault : Bool) (ctx : Ctx R) (depth gravityN
       applyOp op old (topL + (d - mn) * ((botL - topL) / (mx - mn)))
     else old
   | .adiabatic mn mx op tp alpha cp =>
-    -- slab tests the distance from the plane, the fault copy tests the *depth* (as written)
-    let x := if isFault then depth else pd.distanceFromPlane
-    if x ≤ mx ∧ x ≥ mn then applyOp op old (adiabat tp alpha gravityNorm cp depth) else old
+    if d ≤ mx ∧ d ≥ mn then applyOp op old (adiabat tp alpha gravityNorm cp depth) else old
 
 inductive LineComp (R : Type)
   | uniform (mn mx : R) (op : Op) (comps : List Nat) (fractions : List R)
